@@ -58,6 +58,9 @@ def undelDir (v pSect : Nat) (entry : Blk) : Prog RC := do
   if !(← isBlockFree v (entry.w F_headerKey)) then return rcError
   if isDIRCACHE vc.dosType then
     if !(← isBlockFree v (entry.w F_extension)) then return rcError
+  -- with a directory cache a third block may be needed for the parent's cache: refused before anything is linked
+  if isDIRCACHE vc.dosType then
+    if !(← hasFreeBlocks v 3) then return rcVolFull
   let (rc, parent) ← readEntryBlock v pSect
   if rc ≠ rcOK then return rc
   let name := salvName entry
@@ -108,12 +111,18 @@ def giveBack (v hdr : Nat) (data exts : List Nat) : Prog Unit := do
 /-- `adfUndelFile` from the point where the file's block lists are known up to and including the link into the parent:
     `some (parent, entry)` when the file is linked; otherwise everything marked was given back -/
 def undelFileLink (v pSect : Nat) (entry : Blk) (data exts : List Nat) : Prog (RC × Option (Blk × Blk)) := do
+  let vc ← getVolCfg v
   setBlockUsed v (entry.w F_headerKey)
   let nD ← markWhileFree v data
   let nE ← (if nD = data.length then markWhileFree v exts else pure 0 : Prog Nat)
   if nD < data.length ∨ nE < exts.length then
     giveBack v (entry.w F_headerKey) (data.take nD) (exts.take nE)
     return (rcError, none)
+  -- with a directory cache one more block may be needed for the parent's cache: refused before the file is linked
+  let room ← (if isDIRCACHE vc.dosType then hasFreeBlocks v 1 else pure true : Prog Bool)
+  if !room then
+    giveBack v (entry.w F_headerKey) data exts
+    return (rcVolFull, none)
   let (rc, parent) ← readEntryBlock v pSect
   if rc ≠ rcOK then
     giveBack v (entry.w F_headerKey) data exts
